@@ -28,12 +28,13 @@ def quote(D: str) -> str:
     return "".join("> " + ln + "\n" if ln else ">\n" for ln in D.split("\n")[:-1])
 
 
-def listify(D: str, marker: str, sp: int) -> str:
+def listify(D: str, marker: str, sp: int, blank: bool = False) -> str:
+    """`blank`: indent blank lines too (the literal reading, and the form C06.list_law is stated for)"""
     W = len(marker) + sp
     lines = D.split("\n")[:-1]
     out = [marker + " " * sp + lines[0]]
     for ln in lines[1:]:
-        out.append(" " * W + ln if ln else "")
+        out.append(" " * W + ln if (ln or blank) else "")
     return "\n".join(out) + "\n"
 
 
@@ -66,13 +67,13 @@ def check_quote(md, D):
     return True
 
 
-def check_list(md, D, marker, sp):
+def check_list(md, D, marker, sp, blank=False):
     if not D or D[0] in " \n":
         return None
     a = md.parse(D)
     if not a:
         return None
-    L = listify(D, marker, sp)
+    L = listify(D, marker, sp, blank)
     first = L.split("\n")[0]
     # thematic-break precedence on the combined first line
     import re
@@ -124,9 +125,10 @@ def run(ctx: Ctx) -> None:
                     nxt = quote(cur)
                 else:
                     mk, sp = rng.choice(MARKERS), rng.randint(1, 4)
-                    r = check_list(md, cur, mk, sp)
-                    step = ("list", mk, sp)
-                    nxt = listify(cur, mk, sp) if cur and cur[0] not in " \n" else None
+                    bl = rng.random() < 0.5
+                    r = check_list(md, cur, mk, sp, bl)
+                    step = ("list", mk, sp, bl)
+                    nxt = listify(cur, mk, sp, bl) if cur and cur[0] not in " \n" else None
             except Exception:
                 break
             chain.append(step)
@@ -168,6 +170,13 @@ def run(ctx: Ctx) -> None:
     finally:
         drv.close()
     ctx.partial += [
+        "PROVED, list-indent half (C06h.list_law, by a third simulation — column shift — Props/C06e-g): for the modelled sub-parser, every "
+        "tab-free document D without '>' whose first line starts with a non-blank, every marker ('*', '-', '+', 1-9 digits + ')' or '.'), "
+        "1-4 spaces, every subset of the optional rules, every maxNesting >= 0: unless the combined first line is a thematic break, the "
+        "marker + spaces before the first line and that many spaces before every other line parse (two more levels allowed) to one "
+        "list with one item over all lines whose content is the stream of D with level+2, same maps/contents/markup, up to the hidden "
+        "flag of paragraphs. '>' is excluded because of the exception the property names (a lazy continuation line inside a quote keeps "
+        "the item's indentation); a decided example shows the exception is real in the model.",
         "PROVED for the modelled sub-parser (code, fence, blockquote, hr, list, heading, paragraph; C06c.quote_law for the chains "
         "without lists, C06d.l_quote_law with lists — quotes and lists nested in each other, tight/loose, ordered, empty items): for every "
         "tab-free document D given by its lines, every subset of the optional rules and every maxNesting >= 0, quoting "
@@ -175,7 +184,8 @@ def run(ctx: Ctx) -> None:
         "stream of D with level+1 and the same maps. Method: simulation (C06b) — bsCount is never read on tab-free "
         "tables, level and maxNesting shift together — instantiated with the lines the quote rule presents to its "
         "nested run (quoteStrip of '> ' ++ l equals the line record of l up to bsCount).",
-        "NOT PROVED: the list law, the law for rules outside the sub-parser (lheading, reference, html_block, table), "
+        "NOT PROVED: the list law for documents containing '>' (block quotes inside the indented document) or with blank lines left "
+        "unindented, the laws for rules outside the sub-parser (lheading, reference, html_block, table), "
         "documents with tabs, and the same-maxNesting form of the law (it differs at "
         "the nesting limit): decided by the oracle on the implementation",
     ]
@@ -205,5 +215,5 @@ def replay(ctx: Ctx, obj: dict) -> bool:
     if obj.get("step", [None])[0] == "quote":
         return check_quote(md, obj["input"]) in (None, True)
     if obj.get("step", [None])[0] == "list":
-        return check_list(md, obj["input"], obj["step"][1], obj["step"][2]) in (None, True)
+        return check_list(md, obj["input"], obj["step"][1], obj["step"][2], obj["step"][3] if len(obj["step"]) > 3 else False) in (None, True)
     return True
